@@ -165,6 +165,60 @@ PropSeparator == [][ LET o == OutOf(act') IN
                             ((Count(o, "sep") = 1 /\ ~(\E i \in 1..Len(o) : o[i].k = "sep" /\ o[i].may))
                                <=> ((act'.t - S.base) - S.last > SECOND)) ]_vars
 
+-----------------------------------------------------------------------------
+\* Witnesses against vacuity: situations the properties above talk about.  Each Never_X is checked as an invariant that TLC
+\* must report VIOLATED under the configurations listed for it in harness/witness.py - a configuration in which the
+\* situation cannot arise would make the corresponding property hold for no reason.
+DbsOf == {S.conns[k].db : k \in 1..Len(S.conns)}
+Reach_Reuse        == \E d \in DbsOf : \E i \in DOMAIN d : Len(d[i]) >= 2                       \* a second incarnation
+Reach_ReuseAfterDelete == \E d \in DbsOf : \E i \in DOMAIN d \cap CIds : Len(d[i]) >= 2 /\ ~d[i][1].alive /\ d[i][2].alive
+Reach_ServerReuse  == \E d \in DbsOf : \E i \in DOMAIN d \cap SIds : Len(d[i]) >= 2            \* server id handed out again
+Reach_Destroyed    == \E j \in 1..Len(S.hist) : S.hist[j].destroyed.id # 0 /\ S.hist[j].life # NoTime /\ S.hist[j].life > 0
+Reach_OldMention   == \E j \in 1..Len(S.hist) : LET r == S.hist[j]  d == S.conns[S.hconn[j]].db IN
+                         r.target.res /\ Len(d[r.target.id]) - 1 > r.target.gen              \* the history names an earlier incarnation
+Reach_DeadMention   == \E j \in 1..Len(S.hist) : LET r == S.hist[j]  d == S.conns[S.hconn[j]].db IN
+                         r.target.res /\ r.target.id # 1 /\ d[r.target.id][r.target.gen + 1].dt # NoTime
+                         /\ d[r.target.id][r.target.gen + 1].dt < r.t                          \* a message on an object after its destruction
+Reach_Bind         == \E d \in DbsOf : \E i \in DOMAIN d : Latest(d, i).type \in {"wl_compositor", "wl_data_device"}
+Reach_LateRegistry == \E d \in DbsOf : \E i \in DOMAIN d : Len(d[i]) >= 2 /\ Latest(d, i).type = "wl_registry"
+Reach_ServerSide   == \E k \in 1..Len(S.conns) : S.conns[k].role = "server"
+Reach_TwoConns     == Len(S.conns) >= 2 /\ \A k \in 1..Len(S.conns) : S.conns[k].n > 0
+Reach_Interleaved  == \E a, b, c \in 1..Len(S.hist) : a < b /\ b < c /\ S.hconn[a] = S.hconn[c] /\ S.hconn[a] # S.hconn[b]
+Reach_SameIdTwice  == \E k1, k2 \in 1..Len(S.conns) : k1 # k2 /\ \E i \in (DOMAIN S.conns[k1].db) \cap (DOMAIN S.conns[k2].db) : i # 1
+Reach_EofTwo       == S.eof /\ Len(S.conns) >= 2
+Reach_CmdAfterEof  == S.eof /\ act.e = "cmd"
+Reach_FilterSplits == S.filter # FAll /\ (\E j \in 1..Len(S.hist) : ~SelHi(S.filter, S.hist[j])) /\ (\E j \in 1..Len(S.hist) : SelLo(S.filter, S.hist[j]))
+Reach_FilterMid    == act.e = "cmd" /\ act.c = "filter" /\ Len(S.hist) > 0 /\ ~S.eof
+Reach_SelHides     == S.sel # 0 /\ (\E j \in 1..Len(S.hist) : S.hconn[j] # S.sel) /\ (\E j \in 1..Len(S.hist) : S.hconn[j] = S.sel)
+Reach_GapOverSecond == \E j \in 1..(Len(S.hist) - 1) : S.hist[j + 1].t - S.hist[j].t > SECOND
+Reach_GapExactSecond == \E j \in 1..(Len(S.hist) - 1) : S.hist[j + 1].t - S.hist[j].t = SECOND
+Reach_ListCapCuts  == act.e = "cmd" /\ act.c = "list" /\ act.cap >= 1
+                      /\ Cardinality({j \in 1..Len(S.hist) : SelLo(IF act.hasm /\ act.ok THEN Refine(FAll, act.ast) ELSE S.filter, S.hist[j])}) > act.cap
+Reach_JunkBetween  == \E a, b, c \in 1..Len(inp) : a < b /\ b < c /\ inp[a].e = "msg" /\ inp[b].e = "junk" /\ inp[c].e = "msg"
+Reach_Accumulated  == S.filter.c = "acc" /\ Len(S.filter.alts) + Len(S.filter.excl) >= 2                  \* alternatives / exclusions from more than one command, or a list
+Never_Reuse == ~Reach_Reuse
+Never_ReuseAfterDelete == ~Reach_ReuseAfterDelete
+Never_ServerReuse == ~Reach_ServerReuse
+Never_Destroyed == ~Reach_Destroyed
+Never_OldMention == ~Reach_OldMention
+Never_DeadMention == ~Reach_DeadMention
+Never_Bind == ~Reach_Bind
+Never_LateRegistry == ~Reach_LateRegistry
+Never_ServerSide == ~Reach_ServerSide
+Never_TwoConns == ~Reach_TwoConns
+Never_Interleaved == ~Reach_Interleaved
+Never_SameIdTwice == ~Reach_SameIdTwice
+Never_EofTwo == ~Reach_EofTwo
+Never_CmdAfterEof == ~Reach_CmdAfterEof
+Never_FilterSplits == ~Reach_FilterSplits
+Never_FilterMid == ~Reach_FilterMid
+Never_SelHides == ~Reach_SelHides
+Never_GapOverSecond == ~Reach_GapOverSecond
+Never_GapExactSecond == ~Reach_GapExactSecond
+Never_ListCapCuts == ~Reach_ListCapCuts
+Never_JunkBetween == ~Reach_JunkBetween
+Never_Accumulated == ~Reach_Accumulated
+
 \* printing of transitions for the replay (always TRUE)
 Emit == PrintT(<<"EDGE", ToJson([path |-> inp, ev |-> act'])>>)
 View == <<S>>
